@@ -87,8 +87,13 @@ def altitude_from_pressure_map_v0(map: npt.ArrayLike):
     longitudes = np.linspace(-180, 180, map.shape[1])
 
     def f(lat: float, long: float, *args, **kwargs) -> np.single:
-        i = np.searchsorted(latitudes, lat)
-        j = np.searchsorted(longitudes, lat)
+        # event sites arrive in radians (as produced by the geometry stage); the map
+        # grid is in degrees with longitudes in [-180, 180]
+        lat_deg = np.degrees(lat)
+        long_deg = np.degrees(long)
+        long_deg = np.where(long_deg > 180.0, long_deg - 360.0, long_deg)
+        i = np.clip(np.searchsorted(latitudes, lat_deg), 0, len(latitudes) - 1)
+        j = np.clip(np.searchsorted(longitudes, long_deg), 0, len(longitudes) - 1)
         pressure: np.single = map[i, j]
         return atm.us_std_atm_altitude_from_pressure(pressure)
 
